@@ -227,10 +227,19 @@ def coqc_file(path, timeout=900):
     return rc == 0, out
 
 
+RUN_ID = os.getpid()   # of the check's main process (pool workers are forked from it)
+
+
+def scratch_dir(prop):
+    """Case files of this run: one directory per running check, so that two runs of the same
+    property (two tiers, or a builder testing a change) never overwrite each other's cases."""
+    return os.path.join(BUILD, f"{prop}.{RUN_ID}")
+
+
 def coq_eval(prop, name, text, timeout=900):
     """Compile a scratch .v (correspondence cases) against the built project.
     Returns (ok, stdout)."""
-    d = os.path.join(BUILD, prop)
+    d = scratch_dir(prop)
     os.makedirs(d, exist_ok=True)
     path = os.path.join(d, name + ".v")
     with open(path, "w", encoding="utf-8") as f:
@@ -652,7 +661,11 @@ def run_check(prop, tier, seed):
         if attempt < 2 and (env.broken or env.disagreements or env.failures) and gen_fingerprint() != fp:
             log(f"[{prop}] coq/Gen changed during the run (a concurrent check regenerated it from another tree); running again")
             continue
-        return env.finish()
+        rc = env.finish()
+        if not os.environ.get("VERIF_KEEP_BUILD"):
+            import shutil
+            shutil.rmtree(scratch_dir(prop), ignore_errors=True)
+        return rc
 
 
 def _run_once(prop, tier, seed):
@@ -729,6 +742,17 @@ def _run_once(prop, tier, seed):
                                + ") define no constant that any theorem of this property depends on (Print All Dependencies); "
                                "they kept the values of the last readable tree, which the correspondence still compares with the implementation")
         fp = gen_fingerprint()
+        semantic = (tables or {}).get("_semantic") or {}
+        if semantic:
+            # sections whose source no longer has the shape the syntactic reader understands but
+            # whose values were obtained from what the code computes (gen_tables.read_*_semantic)
+            env.note("translator_sections_read_semantically", semantic)
+            env.note("translator_semantic_reader_notes", (tables or {}).get("_semantic_notes") or {})
+            env.assume("translator sections " + ", ".join(sorted(semantic)) + " were read SEMANTICALLY (the syntactic reader did not "
+                       "recognise the rewritten source): their table values come from running the checkout's own modules in a "
+                       "subprocess (module constants after import; exhaustive probing of the identifier sanitisers over all Unicode "
+                       "scalar values; systematic probing of tokenise / parse against the model's own ladder) instead of from the "
+                       "text of the source; behaviour outside those probes is covered by the correspondences only")
     # the property module does correspondence + oracle search
     try:
         if tables is None:
